@@ -24,6 +24,7 @@ RULE = (
     "arguments through the layout model) for 1/3 of the cases. Non-trivial = the twin's link insertion order differs "
     "AND the network has a bifurcation. Distinct = SHA-1 of the case."
 )
+RULE += ' In a third of the cases the already stepped original network additionally has its turn rates multiplied in place by the per-node factors and is stepped again (nothing may change).'
 BUDGET = {"quick": {"examples": 250, "shards": 4}, "thorough": {"fuzz_runs": 3000, "examples": 4000, "shards": 16}}
 EXPECTED_LABELS = ("bifurcation", "merge", "1in-multi-out", "multi-in-multi-out", "names:clash", "names:distinct", "engine:SX",
                    "engine:MX", "phi", "delta", "interior-ramp", "share-checked")
